@@ -106,6 +106,10 @@ pub struct Node {
     // utilize this to simulate node being connected.
     #[cfg(test)]
     enabled_as_connected: AtomicBool,
+
+    /// Verification harness override of liveness / sharder (unset by default).
+    #[cfg(scylla_verif)]
+    verif: crate::verif::NodeOverride,
 }
 
 /// A way that Nodes are often passed and accessed in the driver's code.
@@ -144,6 +148,8 @@ impl Node {
             pool: Some(pool),
             #[cfg(test)]
             enabled_as_connected: AtomicBool::new(false),
+            #[cfg(scylla_verif)]
+            verif: Default::default(),
         }
     }
 
@@ -161,6 +167,8 @@ impl Node {
             pool: None,
             #[cfg(test)]
             enabled_as_connected: AtomicBool::new(false),
+            #[cfg(scylla_verif)]
+            verif: Default::default(),
         }
     }
 
@@ -185,6 +193,8 @@ impl Node {
             pool: node.pool.clone(),
             #[cfg(test)]
             enabled_as_connected: AtomicBool::new(node.enabled_as_connected.load(Ordering::SeqCst)),
+            #[cfg(scylla_verif)]
+            verif: Default::default(),
         }
     }
 
@@ -196,6 +206,10 @@ impl Node {
     /// If the node [is enabled](Self::is_enabled) and does not have a sharder,
     /// this means it's not a ScyllaDB node.
     pub fn sharder(&self) -> Option<Sharder> {
+        #[cfg(scylla_verif)]
+        if let Some(s) = self.verif.sharder() {
+            return s;
+        }
         self.pool.as_ref()?.sharder()
     }
 
@@ -211,6 +225,10 @@ impl Node {
     /// Returns true if the driver has any open connections in the pool for this
     /// node.
     pub fn is_connected(&self) -> bool {
+        #[cfg(scylla_verif)]
+        if let Some(c) = self.verif.connected() {
+            return c;
+        }
         #[cfg(test)]
         if self.enabled_as_connected.load(Ordering::SeqCst) {
             return self.is_enabled();
@@ -225,6 +243,10 @@ impl Node {
     /// Only enabled nodes will have connections open. For disabled nodes,
     /// no connections will be opened.
     pub fn is_enabled(&self) -> bool {
+        #[cfg(scylla_verif)]
+        if let Some(e) = self.verif.enabled() {
+            return e;
+        }
         self.pool.is_some()
     }
 
@@ -444,6 +466,15 @@ async fn resolve_contact_points_inner(
     let initial_peers = dedup_contact_points(initial_peers);
 
     (initial_peers, hostnames)
+}
+
+#[cfg(scylla_verif)]
+impl Node {
+    /// Verification harness: override what `is_enabled`, `is_connected` and `sharder` report.
+    #[doc(hidden)]
+    pub fn verif_override(&self) -> &crate::verif::NodeOverride {
+        &self.verif
+    }
 }
 
 #[cfg(test)]
